@@ -18,7 +18,7 @@ git -C /repo worktree add -q --detach $WT HEAD || exit 2
 cd $WT
 res_apply=ok; git apply $OUT/patch.diff || res_apply=FAILED
 # where does the demo go? first line comment may say; default: package clause decides
-pkg=$(grep -m1 '^package ' $OUT/demo_test.go.txt | awk '{print $2}')
+pkg=$(grep -m1 '^package ' $OUT/demo_test.go.txt | awk '{print $2}' | sed 's/_test$//')
 case "$pkg" in
   prunner) ddir=. ;; store) ddir=store ;; taskctl) ddir=taskctl ;; server) ddir=server ;; definition) ddir=definition ;; app) ddir=app ;; helper) ddir=helper ;; *) ddir=. ;;
 esac
